@@ -43,8 +43,12 @@ def parse_oracle(syn, mods, token_strings, D=40, workers=16, timeout=1800):
     return r, [verdict[i + 1] for i in range(len(payload))]
 
 
-def sentgen(mods, L, D=40, workers=16, timeout=3000):
-    r = common.run_tlc("SentGen", "CONSTANT D = %d\nCONSTANT L = %d\nINIT Init\nNEXT Next\nVIEW View\nCONSTRAINT EmitC\n" % (D, L),
+def sentgen(mods, L, D=40, workers=16, timeout=3000, prefixes=((),)):
+    """BFS over the grammar's subset automaton from each context prefix, L tokens deep; returns distinct witnesses"""
+    mods = dict(mods)
+    sets = ",".join("<<%s>>" % ",".join(str(t) for t in p) for p in prefixes)
+    mods["SentGenPrefix.tla"] = "---- MODULE SentGenPrefix ----\nEXTENDS SentGen\nThePrefixes == {%s}\n====\n" % sets
+    r = common.run_tlc("SentGenPrefix", "CONSTANT D = %d\nCONSTANT L = %d\nCONSTANT Prefixes <- ThePrefixes\nINIT Init\nNEXT Next\nVIEW View\nCONSTRAINT EmitC\n" % (D, L),
                        generated=mods, workers=workers, timeout=timeout)
     common.require_ok(r, "SentGen")
     seen = {}
